@@ -342,6 +342,8 @@ def register2(R, tier):
         return z3.And(*parts)
     icfg = [dict(intsize=i, signed=s, step=st) for i in INTSIZES for s in (True, False) for st in (0, 1, 4, 8)
             if not (i == 64 and st == 1 and tier == "quick")]
+    # shift steps that do not divide the width: the topmost (partial) tier must be indexed too
+    icfg += [dict(intsize=i, signed=s, step=st) for (i, st) in ((8, 3), (16, 5), (32, 6), (32, 7), (64, 7)) for s in (True, False)]
     fdom = "((-(2**(self.bits-1)) <= num < 2**(self.bits-1)) if self.signed else (0 <= num < 2**self.bits))"
     R.contract("whoosh.fields:NUMERIC.index", props=["C13"], setup=setup_index,
                raises={"ValueError": "not " + fdom},
